@@ -514,3 +514,127 @@ theorem purge_keeps (db : DB) (kept : Nat) (e : Entry) (he : e ∈ db.entries) (
   exact ⟨he, hn⟩
 
 end BstreamVerif.Forkable
+
+namespace BstreamVerif.Forkable
+open BstreamVerif BstreamVerif.ForkDB
+
+/-! ### the head named by every event (C04) -/
+
+def AllHead (r : Ref) (a : Acc) : Prop := ∀ e ∈ a.evs, e.head = r
+
+theorem phase_allHead (r : Ref) (a : Acc) (evs : List Event) (h : AllHead r a) (he : ∀ e ∈ evs, e.head = r) :
+    AllHead r (phase a evs) := by
+  unfold phase
+  split
+  · exact h
+  · intro e hm
+    simp only [List.mem_append] at hm
+    rcases hm with hm | hm
+    · exact h e hm
+    · apply he
+      unfold deliver at hm
+      split at hm
+      · exact hm
+      · split at hm
+        · exact List.mem_of_mem_take hm
+        · exact hm
+
+theorem mkEvents_head (step : Step) (es : List Entry) (head lib : Ref) (j : Option Ref) :
+    ∀ e ∈ mkEvents step es head lib j, e.head = head := by
+  intro e he
+  unfold mkEvents at he
+  obtain ⟨i, hi, rfl⟩ := List.getElem_of_mem he
+  simp
+
+theorem newStep_allHead (cfg : Config) (r : Ref) (a : Acc) (e : Entry) (h : AllHead r a) : AllHead r (newStep cfg r a e) := by
+  have hext : ∀ x ∈ a.evs ++ [newEv r a.st e], x.head = r := by
+    intro x hx
+    simp only [List.mem_append, List.mem_singleton] at hx
+    rcases hx with hx | rfl
+    · exact h x hx
+    · rfl
+  by_cases hf : a.failed = true
+  · rw [newStep_failed cfg r a e hf]; exact h
+  · have hf : a.failed = false := by simpa using hf
+    by_cases hs : isSent a.st.db e.blk.id = true
+    · rw [newStep_sent cfg r a e hf hs]; exact h
+    · have hs : isSent a.st.db e.blk.id = false := by simpa using hs
+      by_cases hd : cfg.matches .new = true
+      · cases hfa : a.failAt with
+        | none => rw [newStep_send_none cfg r a e hf hs hd hfa]; exact hext
+        | some k =>
+          cases k with
+          | zero => rw [newStep_send_zero cfg r a e hf hs hd hfa]; exact hext
+          | succ j => rw [newStep_send_succ cfg r a e hf hs hd j hfa]; exact hext
+      · have hd : cfg.matches .new = false := by simpa using hd
+        rw [newStep_nosend cfg r a e hf hs hd]; exact h
+
+theorem foldl_newStep_allHead (cfg : Config) (r : Ref) (ch : List Entry) (a : Acc) (h : AllHead r a) :
+    AllHead r (ch.foldl (newStep cfg r) a) := by
+  induction ch generalizing a with
+  | nil => exact h
+  | cons e t ih => exact ih _ (newStep_allHead cfg r a e h)
+
+theorem processIrr_allHead (cfg : Config) (r : Ref) (a : Acc) (seg : List Entry) (actual : Id → Option Blk)
+    (h : AllHead r a) : AllHead r (processIrr cfg a seg r actual) := by
+  have hev : ∀ e ∈ irrEvents cfg seg r actual, e.head = r := by
+    intro e he
+    unfold irrEvents at he
+    split at he
+    · obtain ⟨i, hi, rfl⟩ := List.getElem_of_mem he; simp
+    · simp at he
+  rw [processIrr_eq]
+  split
+  · exact h
+  · split
+    · exact phase_allHead r a _ h hev
+    · intro e he
+      rw [(setSeen_fields _ seg).2.2] at he
+      exact phase_allHead r a _ h hev e he
+
+theorem processStalled_allHead (cfg : Config) (r : Ref) (a : Acc) (st : List Entry) (h : AllHead r a) :
+    AllHead r (processStalled cfg a st r) := by
+  unfold processStalled
+  split
+  · exact h
+  · apply phase_allHead r a _ h
+    intro e he
+    split at he
+    · obtain ⟨i, hi, rfl⟩ := List.getElem_of_mem he; simp
+    · simp at he
+
+theorem advanceAcc_allHead (cfg : Config) (a : Acc) (b : Blk) (fi : Option Entry) (h : AllHead b.ref a) :
+    AllHead b.ref (advanceAcc cfg a b fi) := by
+  unfold advanceAcc
+  split
+  · exact h
+  · split
+    · exact h
+    · split
+      · exact h
+      · simp only
+        split
+        · exact h
+        · rw [advanceTo_eq]
+          split
+          · exact h
+          · apply processStalled_allHead
+            apply processIrr_allHead
+            exact h
+
+theorem initialAcc_allHead (cfg : Config) (s : FState) (b : Blk) (f : Option Nat) :
+    AllHead b.ref (initialAcc cfg s b f) := by
+  rw [initialAcc_eq]
+  have h0 : AllHead b.ref (initFirst cfg { s with db := (s.db.addLink b).1 } b f) := by
+    unfold initFirst
+    split
+    · apply phase_allHead
+      · intro e he; simp at he
+      · intro e he; simp only [List.mem_singleton] at he; subst he; rfl
+    · intro e he; simp at he
+  split
+  · exact h0
+  · apply processIrr_allHead
+    exact h0
+
+end BstreamVerif.Forkable
